@@ -108,13 +108,15 @@ def supDelta (moves : List Move) : String :=
 def orbBech : String := Gen.moduleAddressBech32
 
 /-- Bridge requests as the typed events of the real modules show them (`recv`). -/
-def reqEvents (reqs : List Req) : String :=
+def reqEvents (toks : List (Bytes × String)) (reqs : List Req) : String :=
   let parts := reqs.filterMap fun r => match r with
     | .cctp _ amt dom mint burn caller =>
       some ("cctp:" ++ natToDec dom ++ ":" ++ hxB mint ++ ":" ++ hxB (caller.getD []) ++ ":" ++ intToDec amt ++ ":" ++ hxS burn
             ++ ":" ++ hexRaw Gen.moduleAddress)
     | .warp _ tok dom rec_ amt _ _ _ _ _ =>
       -- the event carries sdk.NewCoins(coin).String(); the driver is told the origin denom through the token table
+      -- the warp module's event names the token by its own identifier, whatever spelling of it the request used
+      let tok := match toks.find? (internalId ·.1 == internalId tok) with | some (id, _) => id | none => tok
       some ("hyp:" ++ hexRaw tok ++ ":" ++ natToDec dom ++ ":" ++ hexRaw rec_ ++ ":" ++ intToDec amt)
     | _ => none
   if parts.isEmpty then "-" else joinWith ";" parts
@@ -472,7 +474,7 @@ def recvLine (st : DState) (f : List String) (harness : Bool) : String × DState
         common ++ " hreq=" ++ (if ok then reqRecorded out.ctx.reqs else "-") ++ " calls=" ++ (if ok then listOrDash (out.ctx.calls.map (·.1)) else "-")
           ++ " ev=" ++ (if ok then listOrDash out.ctx.events else "-") ++ " st=" ++ stateStr out.orb ++ " tag=" ++ tag
       else
-        common ++ " req=" ++ (if ok then reqEvents out.ctx.reqs else "-") ++ " ev=" ++ (if ok then listOrDash out.ctx.events else "-")
+        common ++ " req=" ++ (if ok then reqEvents out.ctx.ext.hypTokens out.ctx.reqs else "-") ++ " ev=" ++ (if ok then listOrDash out.ctx.events else "-")
           ++ " mv=" ++ (if ok then movesStr out.ctx.moves else "-") ++ " st=" ++ stateStr out.orb ++ " tag=" ++ tag
     (line, { st with w := out.world, faults := if harness then [] else st.faults })
 
@@ -659,6 +661,7 @@ def handle (st : DState) (line : String) : String × DState :=
      | ["cctppause", which, b] => upd (.cctpPause (which == "burn") (b == "1"))
      | ["burnlimit", n] => (match parseNat n with | some n => upd (.burnLimit n) | none => ("bad-op", st))
      | ["recvenabled", b] => upd (.recvEnabled (b == "1"))
+     | ["role", _, a] => (match unhxS a with | some _ => ("ok", st) | none => ("bad-op", st))  -- roles of other modules: no part in anything modelled
      | ["hyp", "setup", _] => ("ok", st)
      | ["hyp", "token", t, d] => (match unhxB t, unhxS d with | some t, some d => upd (.hypToken t d) | _, _ => ("bad-op", st))
      | ["hyp", "enroll", t, dom, gas] => (match unhxB t, parseNat dom, parseNat gas with
